@@ -1,1 +1,595 @@
-//! (placeholder) DML reference model lives here.
+//! Relational reference model for DDL/DML/transactions (catalog with constraints, multiset tables,
+//! statement-atomic INSERT/UPDATE/DELETE/TRUNCATE, BEGIN/COMMIT/ROLLBACK/SAVEPOINT by snapshots).
+use super::expr::{Binding, Env, MErr, E};
+use super::gen::Ty;
+use super::query::{Item, MTable};
+use super::val::{row_key, Row, V};
+use std::collections::{BTreeMap, BTreeSet};
+
+#[derive(Clone, Debug)]
+pub struct ColDef {
+    pub name: String,
+    pub ty: Ty,
+    pub not_null: bool,
+    pub unique: bool,
+    pub default: Option<V>,
+    pub auto_inc: bool,
+    /// column-level CHECK (expr over this table's columns)
+    pub check: Option<E>,
+}
+
+#[derive(Clone, Copy, Debug, PartialEq, Eq)]
+pub enum FkAction {
+    Restrict,
+    Cascade,
+}
+
+#[derive(Clone, Debug)]
+pub struct FkDef {
+    pub col: String,
+    pub ref_table: String,
+    pub ref_col: String,
+    pub on_delete: FkAction,
+}
+
+#[derive(Clone, Debug, Default)]
+pub struct TableDef {
+    pub name: String,
+    pub cols: Vec<ColDef>,
+    /// primary key columns (empty = no PK)
+    pub pk: Vec<String>,
+    pub fks: Vec<FkDef>,
+    /// secondary indexes: (name, columns, unique)
+    pub indexes: Vec<(String, Vec<String>, bool)>,
+}
+
+impl TableDef {
+    pub fn col_idx(&self, name: &str) -> Option<usize> {
+        self.cols.iter().position(|c| c.name.eq_ignore_ascii_case(name))
+    }
+    pub fn col_names(&self) -> Vec<String> {
+        self.cols.iter().map(|c| c.name.clone()).collect()
+    }
+    pub fn create_sql(&self) -> String {
+        let mut parts = vec![];
+        for c in &self.cols {
+            let mut s = format!("{} {}", c.name, c.ty.sql());
+            if self.pk.len() == 1 && self.pk[0].eq_ignore_ascii_case(&c.name) {
+                s.push_str(" PRIMARY KEY");
+            }
+            if c.auto_inc {
+                s.push_str(" AUTO_INCREMENT");
+            }
+            if c.not_null {
+                s.push_str(" NOT NULL");
+            }
+            if c.unique {
+                s.push_str(" UNIQUE");
+            }
+            if let Some(d) = &c.default {
+                s.push_str(&format!(" DEFAULT {}", d.sql()));
+            }
+            if let Some(ch) = &c.check {
+                s.push_str(&format!(" CHECK ({})", strip_outer_parens(&ch.sql())));
+            }
+            if let Some(fk) = self.fks.iter().find(|f| f.col.eq_ignore_ascii_case(&c.name)) {
+                s.push_str(&format!(" REFERENCES {}({})", fk.ref_table, fk.ref_col));
+                if fk.on_delete == FkAction::Cascade {
+                    s.push_str(" ON DELETE CASCADE");
+                }
+            }
+            parts.push(s);
+        }
+        if self.pk.len() > 1 {
+            parts.push(format!("PRIMARY KEY ({})", self.pk.join(", ")));
+        }
+        format!("CREATE TABLE {} ({})", self.name, parts.join(", "))
+    }
+}
+
+pub fn strip_outer_parens(s: &str) -> String {
+    let t = s.trim();
+    if t.starts_with('(') && t.ends_with(')') {
+        // only strip if the parens match each other
+        let mut depth = 0;
+        for (i, c) in t.char_indices() {
+            match c {
+                '(' => depth += 1,
+                ')' => {
+                    depth -= 1;
+                    if depth == 0 && i != t.len() - 1 {
+                        return t.to_string();
+                    }
+                }
+                _ => {}
+            }
+        }
+        return t[1..t.len() - 1].to_string();
+    }
+    t.to_string()
+}
+
+#[derive(Clone, Debug)]
+pub enum Stmt {
+    CreateTable(TableDef),
+    DropTable(String),
+    CreateIndex { name: String, table: String, cols: Vec<String>, unique: bool },
+    DropIndex(String),
+    /// explicit column list (None = all columns in order); each row a list of expressions (literals mostly)
+    Insert { table: String, cols: Option<Vec<String>>, rows: Vec<Vec<E>>, returning: bool },
+    Update { table: String, sets: Vec<(String, E)>, where_: Option<E>, returning: bool },
+    Delete { table: String, where_: Option<E>, returning: bool },
+    Truncate(String),
+    Begin,
+    Commit,
+    Rollback,
+    Savepoint(String),
+    RollbackTo(String),
+    Release(String),
+}
+
+impl Stmt {
+    pub fn sql(&self) -> String {
+        match self {
+            Stmt::CreateTable(t) => t.create_sql(),
+            Stmt::DropTable(t) => format!("DROP TABLE {}", t),
+            Stmt::CreateIndex { name, table, cols, unique } => format!("CREATE {}INDEX {} ON {} ({})", if *unique { "UNIQUE " } else { "" }, name, table, cols.join(", ")),
+            Stmt::DropIndex(n) => format!("DROP INDEX {}", n),
+            Stmt::Insert { table, cols, rows, returning } => {
+                let c = cols.as_ref().map(|c| format!(" ({})", c.join(", "))).unwrap_or_default();
+                let r: Vec<String> = rows.iter().map(|r| format!("({})", r.iter().map(|e| e.sql()).collect::<Vec<_>>().join(", "))).collect();
+                format!("INSERT INTO {}{} VALUES {}{}", table, c, r.join(", "), if *returning { " RETURNING *" } else { "" })
+            }
+            Stmt::Update { table, sets, where_, returning } => {
+                let s: Vec<String> = sets.iter().map(|(c, e)| format!("{} = {}", c, e.sql())).collect();
+                format!("UPDATE {} SET {}{}{}", table, s.join(", "), where_.as_ref().map(|w| format!(" WHERE {}", w.sql())).unwrap_or_default(), if *returning { " RETURNING *" } else { "" })
+            }
+            Stmt::Delete { table, where_, returning } => format!("DELETE FROM {}{}{}", table, where_.as_ref().map(|w| format!(" WHERE {}", w.sql())).unwrap_or_default(), if *returning { " RETURNING *" } else { "" }),
+            Stmt::Truncate(t) => format!("TRUNCATE TABLE {}", t),
+            Stmt::Begin => "BEGIN".into(),
+            Stmt::Commit => "COMMIT".into(),
+            Stmt::Rollback => "ROLLBACK".into(),
+            Stmt::Savepoint(n) => format!("SAVEPOINT {}", n),
+            Stmt::RollbackTo(n) => format!("ROLLBACK TO {}", n),
+            Stmt::Release(n) => format!("RELEASE {}", n),
+        }
+    }
+    pub fn kind(&self) -> &'static str {
+        match self {
+            Stmt::CreateTable(_) => "create_table",
+            Stmt::DropTable(_) => "drop_table",
+            Stmt::CreateIndex { .. } => "create_index",
+            Stmt::DropIndex(_) => "drop_index",
+            Stmt::Insert { rows, .. } => {
+                if rows.len() > 1 {
+                    "insert_multi"
+                } else {
+                    "insert"
+                }
+            }
+            Stmt::Update { .. } => "update",
+            Stmt::Delete { .. } => "delete",
+            Stmt::Truncate(_) => "truncate",
+            Stmt::Begin => "begin",
+            Stmt::Commit => "commit",
+            Stmt::Rollback => "rollback",
+            Stmt::Savepoint(_) => "savepoint",
+            Stmt::RollbackTo(_) => "rollback_to",
+            Stmt::Release(_) => "release",
+        }
+    }
+    pub fn is_mutation(&self) -> bool {
+        !matches!(self, Stmt::Begin | Stmt::Commit | Stmt::Savepoint(_) | Stmt::Release(_))
+    }
+}
+
+#[derive(Clone, Debug, Default)]
+pub struct Effect {
+    pub rows_affected: Option<usize>,
+    pub returning: Option<Vec<Row>>,
+}
+
+#[derive(Clone, Debug, Default)]
+pub struct State {
+    pub tables: BTreeMap<String, (TableDef, Vec<Row>)>,
+    /// next AUTO_INCREMENT value per table
+    pub autoinc: BTreeMap<String, i64>,
+}
+
+#[derive(Clone, Debug, Default)]
+pub struct MDb {
+    pub st: State,
+    /// Some(snapshot at BEGIN) while a transaction is open
+    pub txn: Option<State>,
+    pub savepoints: Vec<(String, State)>,
+    /// every value an AUTO_INCREMENT column ever held (C12 monitor): table -> set
+    pub ever_held: BTreeMap<String, BTreeSet<i64>>,
+}
+
+/// which constraint made the model reject a statement (for signatures)
+fn cerr(kind: &str) -> MErr {
+    MErr::Error(format!("constraint:{}", kind))
+}
+
+impl MDb {
+    pub fn mtables(&self) -> BTreeMap<String, MTable> {
+        self.st.tables.iter().map(|(k, (d, rows))| (k.clone(), MTable { name: d.name.clone(), cols: d.col_names(), rows: rows.clone() })).collect()
+    }
+    pub fn in_txn(&self) -> bool {
+        self.txn.is_some()
+    }
+
+    fn eval_row_expr(&self, e: &E, def: &TableDef, row: &Row) -> Result<V, MErr> {
+        let tables = self.mtables();
+        let mut env = Env::new(&tables);
+        env.frames.push(vec![Binding { alias: def.name.clone(), cols: def.col_names(), row: row.clone() }]);
+        e.eval(&mut env)
+    }
+
+    /// type check / coerce a value for a column; Unsupported when the model does not pin the coercion
+    fn coerce(v: V, ty: Ty) -> Result<V, MErr> {
+        match (&v, ty) {
+            (V::Null, _) => Ok(v),
+            (V::Int(_), Ty::Int) | (V::Float(_), Ty::Float) | (V::Text(_), Ty::Text) | (V::Bool(_), Ty::Bool) => Ok(v),
+            (V::Int(i), Ty::Float) => Ok(V::Float(*i as f64)),
+            _ => Err(MErr::Unsupported(format!("coercion of {:?} to {:?}", v, ty))),
+        }
+    }
+
+    /// all constraints of `table` hold for `rows` (+ FKs pointing into / out of it)
+    fn check_table(&self, st: &State, name: &str) -> Result<(), MErr> {
+        let (def, rows) = &st.tables[name];
+        for r in rows {
+            for (i, c) in def.cols.iter().enumerate() {
+                if r[i].is_null() && (c.not_null || def.pk.iter().any(|p| p.eq_ignore_ascii_case(&c.name))) {
+                    return Err(cerr("not_null"));
+                }
+                if let Some(ch) = &c.check {
+                    // CHECK passes unless FALSE
+                    if self.eval_row_expr(ch, def, r)?.truth() == Some(false) {
+                        return Err(cerr("check"));
+                    }
+                }
+            }
+        }
+        // PK / UNIQUE / unique indexes
+        let mut keys: Vec<(Vec<usize>, &str)> = vec![];
+        if !def.pk.is_empty() {
+            keys.push((def.pk.iter().map(|p| def.col_idx(p).unwrap()).collect(), "primary_key"));
+        }
+        for (i, c) in def.cols.iter().enumerate() {
+            if c.unique {
+                keys.push((vec![i], "unique"));
+            }
+        }
+        for (_, cols, unique) in &def.indexes {
+            if *unique {
+                keys.push((cols.iter().map(|c| def.col_idx(c).unwrap()).collect(), "unique_index"));
+            }
+        }
+        for (idx, kind) in keys {
+            let mut seen = BTreeSet::new();
+            for r in rows {
+                let k: Row = idx.iter().map(|i| r[*i].clone()).collect();
+                if k.iter().any(|v| v.is_null()) {
+                    continue;
+                }
+                if !seen.insert(row_key(&k, true)) {
+                    return Err(cerr(kind));
+                }
+            }
+        }
+        Ok(())
+    }
+
+    fn check_fks(&self, st: &State) -> Result<(), MErr> {
+        for (_, (def, rows)) in &st.tables {
+            for fk in &def.fks {
+                let ci = def.col_idx(&fk.col).unwrap();
+                let (pdef, prows) = match st.tables.get(&fk.ref_table.to_lowercase()) {
+                    Some(x) => x,
+                    None => return Err(cerr("foreign_key_parent_missing")),
+                };
+                let pi = pdef.col_idx(&fk.ref_col).unwrap();
+                for r in rows {
+                    if r[ci].is_null() {
+                        continue;
+                    }
+                    if !prows.iter().any(|p| p[pi].sql_cmp(&r[ci]) == Some(std::cmp::Ordering::Equal)) {
+                        return Err(cerr("foreign_key"));
+                    }
+                }
+            }
+        }
+        Ok(())
+    }
+
+    /// apply a statement; Err(Error) = SQL must reject it (state unchanged); Err(Unsupported) = not judged
+    pub fn apply(&mut self, s: &Stmt) -> Result<Effect, MErr> {
+        let mut st = self.st.clone();
+        let eff = self.apply_to(&mut st, s)?;
+        self.st = st;
+        Ok(eff)
+    }
+
+    fn apply_to(&mut self, st: &mut State, s: &Stmt) -> Result<Effect, MErr> {
+        match s {
+            Stmt::CreateTable(def) => {
+                let k = def.name.to_lowercase();
+                if st.tables.contains_key(&k) {
+                    return Err(MErr::Error("table exists".into()));
+                }
+                for fk in &def.fks {
+                    if !st.tables.contains_key(&fk.ref_table.to_lowercase()) {
+                        return Err(MErr::Unsupported("fk to missing table".into()));
+                    }
+                }
+                st.tables.insert(k.clone(), (def.clone(), vec![]));
+                st.autoinc.insert(k, 1);
+                Ok(Effect::default())
+            }
+            Stmt::DropTable(t) => {
+                let k = t.to_lowercase();
+                if !st.tables.contains_key(&k) {
+                    return Err(MErr::Error("no such table".into()));
+                }
+                if st.tables.values().any(|(d, _)| d.fks.iter().any(|f| f.ref_table.eq_ignore_ascii_case(t)) && !d.name.eq_ignore_ascii_case(t)) {
+                    return Err(MErr::Unsupported("drop of referenced table".into()));
+                }
+                st.tables.remove(&k);
+                st.autoinc.remove(&k);
+                Ok(Effect::default())
+            }
+            Stmt::CreateIndex { name, table, cols, unique } => {
+                let k = table.to_lowercase();
+                if st.tables.values().any(|(d, _)| d.indexes.iter().any(|(n, _, _)| n.eq_ignore_ascii_case(name))) {
+                    return Err(MErr::Error("index exists".into()));
+                }
+                let (def, _) = st.tables.get_mut(&k).ok_or_else(|| MErr::Error("no such table".into()))?;
+                for c in cols {
+                    if def.col_idx(c).is_none() {
+                        return Err(MErr::Error("no such column".into()));
+                    }
+                }
+                def.indexes.push((name.clone(), cols.clone(), *unique));
+                if *unique {
+                    let snapshot = st.clone();
+                    if self.check_table(&snapshot, &k).is_err() {
+                        return Err(cerr("unique_index_on_duplicates"));
+                    }
+                }
+                Ok(Effect::default())
+            }
+            Stmt::DropIndex(n) => {
+                for (_, (d, _)) in st.tables.iter_mut() {
+                    if let Some(p) = d.indexes.iter().position(|(x, _, _)| x.eq_ignore_ascii_case(n)) {
+                        d.indexes.remove(p);
+                        return Ok(Effect::default());
+                    }
+                }
+                Err(MErr::Error("no such index".into()))
+            }
+            Stmt::Insert { table, cols, rows, returning } => {
+                let k = table.to_lowercase();
+                let def = st.tables.get(&k).ok_or_else(|| MErr::Error("no such table".into()))?.0.clone();
+                let names: Vec<String> = cols.clone().unwrap_or_else(|| def.col_names());
+                let mut new_rows = vec![];
+                for r in rows {
+                    if r.len() != names.len() {
+                        return Err(MErr::Error("column count mismatch".into()));
+                    }
+                    let mut row: Row = def.cols.iter().map(|c| c.default.clone().unwrap_or(V::Null)).collect();
+                    let mut given = vec![false; def.cols.len()];
+                    for (n, e) in names.iter().zip(r) {
+                        let i = def.col_idx(n).ok_or_else(|| MErr::Error("no such column".into()))?;
+                        let v = self.eval_row_expr(e, &def, &vec![V::Null; def.cols.len()])?;
+                        row[i] = Self::coerce(v, def.cols[i].ty)?;
+                        given[i] = true;
+                    }
+                    // AUTO_INCREMENT: NULL / omitted -> next value; explicit value above the counter advances it
+                    for (i, c) in def.cols.iter().enumerate() {
+                        if c.auto_inc {
+                            let ctr = st.autoinc.entry(k.clone()).or_insert(1);
+                            match &row[i] {
+                                V::Null => {
+                                    if given[i] && false {
+                                        unreachable!();
+                                    }
+                                    row[i] = V::Int(*ctr);
+                                    *ctr += 1;
+                                }
+                                V::Int(x) => {
+                                    if *x >= *ctr {
+                                        *ctr = *x + 1;
+                                    }
+                                }
+                                _ => {}
+                            }
+                            if let V::Int(x) = &row[i] {
+                                self.ever_held.entry(k.clone()).or_default().insert(*x);
+                            }
+                        }
+                    }
+                    new_rows.push(row);
+                }
+                st.tables.get_mut(&k).unwrap().1.extend(new_rows.iter().cloned());
+                let snap = st.clone();
+                self.check_table(&snap, &k)?;
+                self.check_fks(&snap)?;
+                Ok(Effect { rows_affected: Some(new_rows.len()), returning: if *returning { Some(new_rows) } else { None } })
+            }
+            Stmt::Update { table, sets, where_, returning } => {
+                let k = table.to_lowercase();
+                let (def, rows) = st.tables.get(&k).ok_or_else(|| MErr::Error("no such table".into()))?.clone();
+                let mut out = vec![];
+                let mut changed = vec![];
+                let mut n = 0;
+                for r in &rows {
+                    let hit = match where_ {
+                        None => true,
+                        Some(w) => self.eval_row_expr(w, &def, r)?.truth() == Some(true),
+                    };
+                    if hit {
+                        n += 1;
+                        let mut nr = r.clone();
+                        for (c, e) in sets {
+                            let i = def.col_idx(c).ok_or_else(|| MErr::Error("no such column".into()))?;
+                            let v = self.eval_row_expr(e, &def, r)?;
+                            nr[i] = Self::coerce(v, def.cols[i].ty)?;
+                        }
+                        changed.push(nr.clone());
+                        out.push(nr);
+                    } else {
+                        out.push(r.clone());
+                    }
+                }
+                // updates of referenced parent keys: not modelled (ON UPDATE actions)
+                let referenced: Vec<usize> = st.tables.values().flat_map(|(d, _)| d.fks.iter().filter(|f| f.ref_table.eq_ignore_ascii_case(table)).map(|f| def.col_idx(&f.ref_col).unwrap()).collect::<Vec<_>>()).collect();
+                if sets.iter().any(|(c, _)| referenced.contains(&def.col_idx(c).unwrap_or(usize::MAX))) {
+                    return Err(MErr::Unsupported("update of a referenced key".into()));
+                }
+                st.tables.get_mut(&k).unwrap().1 = out;
+                let snap = st.clone();
+                self.check_table(&snap, &k)?;
+                self.check_fks(&snap)?;
+                Ok(Effect { rows_affected: Some(n), returning: if *returning { Some(changed) } else { None } })
+            }
+            Stmt::Delete { table, where_, returning } => {
+                let k = table.to_lowercase();
+                let (def, rows) = st.tables.get(&k).ok_or_else(|| MErr::Error("no such table".into()))?.clone();
+                let mut keep = vec![];
+                let mut gone = vec![];
+                for r in &rows {
+                    let hit = match where_ {
+                        None => true,
+                        Some(w) => self.eval_row_expr(w, &def, r)?.truth() == Some(true),
+                    };
+                    if hit {
+                        gone.push(r.clone());
+                    } else {
+                        keep.push(r.clone());
+                    }
+                }
+                st.tables.get_mut(&k).unwrap().1 = keep;
+                // FK actions on children
+                self.cascade_delete(st, &def, &gone)?;
+                let snap = st.clone();
+                self.check_fks(&snap)?;
+                Ok(Effect { rows_affected: Some(gone.len()), returning: if *returning { Some(gone) } else { None } })
+            }
+            Stmt::Truncate(t) => {
+                let k = t.to_lowercase();
+                if !st.tables.contains_key(&k) {
+                    return Err(MErr::Error("no such table".into()));
+                }
+                if st.tables.values().any(|(d, rows)| !rows.is_empty() && d.fks.iter().any(|f| f.ref_table.eq_ignore_ascii_case(t))) {
+                    return Err(MErr::Unsupported("truncate of a referenced table".into()));
+                }
+                st.tables.get_mut(&k).unwrap().1.clear();
+                Ok(Effect::default())
+            }
+            Stmt::Begin => {
+                if self.txn.is_some() {
+                    return Err(MErr::Error("nested BEGIN".into()));
+                }
+                self.txn = Some(st.clone());
+                self.savepoints.clear();
+                Ok(Effect::default())
+            }
+            Stmt::Commit => {
+                if self.txn.is_none() {
+                    return Err(MErr::Error("COMMIT without BEGIN".into()));
+                }
+                self.txn = None;
+                self.savepoints.clear();
+                Ok(Effect::default())
+            }
+            Stmt::Rollback => match self.txn.take() {
+                None => Err(MErr::Error("ROLLBACK without BEGIN".into())),
+                Some(snap) => {
+                    // AUTO_INCREMENT counters are not required to roll back (values must never be reused)
+                    let ctr = st.autoinc.clone();
+                    *st = snap;
+                    for (k, v) in ctr {
+                        if let Some(c) = st.autoinc.get_mut(&k) {
+                            *c = (*c).max(v);
+                        }
+                    }
+                    self.savepoints.clear();
+                    Ok(Effect::default())
+                }
+            },
+            Stmt::Savepoint(n) => {
+                if self.txn.is_none() {
+                    return Err(MErr::Error("SAVEPOINT outside transaction".into()));
+                }
+                self.savepoints.push((n.clone(), st.clone()));
+                Ok(Effect::default())
+            }
+            Stmt::RollbackTo(n) => {
+                if self.txn.is_none() {
+                    return Err(MErr::Error("ROLLBACK TO outside transaction".into()));
+                }
+                match self.savepoints.iter().rposition(|(x, _)| x.eq_ignore_ascii_case(n)) {
+                    None => Err(MErr::Error("no such savepoint".into())),
+                    Some(p) => {
+                        let ctr = st.autoinc.clone();
+                        *st = self.savepoints[p].1.clone();
+                        for (k, v) in ctr {
+                            if let Some(c) = st.autoinc.get_mut(&k) {
+                                *c = (*c).max(v);
+                            }
+                        }
+                        self.savepoints.truncate(p + 1);
+                        Ok(Effect::default())
+                    }
+                }
+            }
+            Stmt::Release(n) => {
+                if self.txn.is_none() {
+                    return Err(MErr::Error("RELEASE outside transaction".into()));
+                }
+                match self.savepoints.iter().rposition(|(x, _)| x.eq_ignore_ascii_case(n)) {
+                    None => Err(MErr::Error("no such savepoint".into())),
+                    Some(p) => {
+                        self.savepoints.truncate(p);
+                        Ok(Effect::default())
+                    }
+                }
+            }
+        }
+    }
+
+    fn cascade_delete(&self, st: &mut State, parent: &TableDef, gone: &[Row]) -> Result<(), MErr> {
+        if gone.is_empty() {
+            return Ok(());
+        }
+        let children: Vec<(String, FkDef)> = st.tables.iter().flat_map(|(k, (d, _))| d.fks.iter().filter(|f| f.ref_table.eq_ignore_ascii_case(&parent.name)).map(|f| (k.clone(), f.clone())).collect::<Vec<_>>()).collect();
+        for (ck, fk) in children {
+            let pi = parent.col_idx(&fk.ref_col).unwrap();
+            let (cdef, crows) = st.tables.get(&ck).unwrap().clone();
+            let ci = cdef.col_idx(&fk.col).unwrap();
+            let refs = |r: &Row| gone.iter().any(|g| !r[ci].is_null() && g[pi].sql_cmp(&r[ci]) == Some(std::cmp::Ordering::Equal));
+            // a parent key that still exists in a surviving parent row keeps the child valid
+            match fk.on_delete {
+                FkAction::Restrict => {
+                    let surviving = &st.tables[&parent.name.to_lowercase()].1;
+                    if crows.iter().any(|r| refs(r) && !surviving.iter().any(|p| p[pi].sql_cmp(&r[ci]) == Some(std::cmp::Ordering::Equal))) {
+                        return Err(cerr("foreign_key_restrict"));
+                    }
+                }
+                FkAction::Cascade => {
+                    let (keep, removed): (Vec<Row>, Vec<Row>) = crows.into_iter().partition(|r| !refs(r));
+                    st.tables.get_mut(&ck).unwrap().1 = keep;
+                    self.cascade_delete(st, &cdef, &removed)?;
+                }
+            }
+        }
+        Ok(())
+    }
+}
+
+/// `SELECT * FROM t` item list helper
+pub fn star() -> Vec<Item> {
+    vec![Item::Star]
+}
